@@ -9,7 +9,7 @@ import glob, json, os, re, shutil, subprocess, sys, tempfile, time
 import concurrent.futures as cf
 HERE = os.path.dirname(os.path.abspath(__file__))
 VERIF = os.path.dirname(HERE)
-ALL = ['C01', 'C02', 'C03', 'C04', 'C07', 'C08', 'C09', 'C10', 'C14']
+ALL = ['C01', 'C02', 'C03', 'C04', 'C07', 'C08', 'C09', 'C10', 'C11', 'C13', 'C14']
 
 
 def sh(cmd, cwd=None, timeout=3000, env=None):
@@ -98,6 +98,26 @@ def detect_one(sid, props=None, base='seeded'):
         shutil.rmtree(tmp, ignore_errors=True)
 
 
+def write_harmless_summary(base):
+    rows = []
+    for i in sorted(os.listdir(base)):
+        f = os.path.join(base, i, 'result.json')
+        if not os.path.isfile(f):
+            continue
+        r = json.load(open(f))
+        meta = json.load(open(os.path.join(base, i, 'meta.json')))
+        codes = {p: v['exit'] for p, v in r.get('checks', {}).items()}
+        rows.append('| %s | %s | %s | %s | %s | %s |' % (i, meta.get('kind', ''), re.sub(r'\s+', ' ', meta.get('description', ''))[:150].replace('|', '/'),
+                    ' '.join(p for p, c in codes.items() if c == 0), ' '.join(p for p, c in codes.items() if c == 2) or '-',
+                    ' '.join(p for p, c in codes.items() if c == 1) or '-'))
+    n_alarm = sum(1 for x in rows if not x.rstrip().endswith('| - |'))
+    with open(os.path.join(base, 'SUMMARY.md'), 'w') as fh:
+        fh.write('# Behaviour-preserving edits: every claimed property\'s quick check on each\n\n')
+        fh.write('%d edits, %d with a false alarm (exit 1).  exit 2 = undecided (the edit leaves the subset / the anchors of the contracts).\n\n' % (len(rows), n_alarm))
+        fh.write('| id | kind | edit | exit 0 | exit 2 (undecided) | exit 1 (FALSE ALARM) |\n|---|---|---|---|---|---|\n')
+        fh.write('\n'.join(rows) + '\n')
+
+
 def main(a):
     if a[0] == 'confirm':
         r = confirm(a[1], a[2])
@@ -131,6 +151,7 @@ def main(a):
                 for p in r['false_alarm']:
                     for l in r['checks'][p]['lines'][:3]:
                         print('      ', p, l[:260])
+        write_harmless_summary(base)
         return 1 if bad else 0
     if a[0] == 'detect':
         ids = a[1:] or sorted(os.listdir(os.path.join(VERIF, 'seeded')))
